@@ -161,6 +161,18 @@ def _pd_models():
         def __init__(self, vals, bins):
             self._v, self._b = vals, bins
 
+        @property
+        def codes(self):
+            """index of the (unique, bins do not overlap) interval containing each value, -1 when there is none"""
+            out = []
+            for v in self._v:
+                c = -1
+                for k, iv in reversed(list(enumerate(self._b))):
+                    inside = iv.contains(v)
+                    c = ite(inside, k, c) if is_sym(inside) else (k if inside else c)
+                out.append(c)
+            return np.array(out, dtype=np.int8) if out else np.zeros(0, np.int8)
+
         def value_counts(self):
             out = []
             for iv in self._b:
